@@ -1036,7 +1036,11 @@ def const_array(spec):
     """Numeric array denoted by a constant operand spec."""
     if spec["k"] == "poly":
         dtype = spec.get("dtype") or G.DTYPE_OF_KIND[spec["kind"]]
-        return numpy.array(G.unj_nested(spec["coefs"][0]), dtype=dtype).reshape(spec["shape"])
+        arr = numpy.array(G.unj_nested(spec["coefs"][0]), dtype=dtype).reshape(spec["shape"])
+        if spec.get("view") == "T":
+            # same memory layout as the polynomial built from the spec (a transposed view)
+            arr = numpy.ascontiguousarray(arr.T).T
+        return arr
     obj = G.build(spec)
     return obj
 
